@@ -231,7 +231,9 @@ func (_this NodeValueDecorator) AfterValue(ctx *EncoderContext) {
 }
 func (_this NodeValueDecorator) BeforeComment(ctx *EncoderContext) {}
 func (_this NodeValueDecorator) AfterComment(ctx *EncoderContext) {
-	ctx.WriteReturnToOrigin()
+	// Always end the comment's line: whether the column happens to equal the
+	// origin column says nothing about being at the start of a line.
+	ctx.WriteNewlineAndOrigin()
 }
 func (_this NodeValueDecorator) EndContainer(ctx *EncoderContext) { errorBadEvent(_this, "End") }
 
